@@ -94,7 +94,7 @@ theorem seek_exact (fl : Flavor) (connOff faceOff : Int) (k : Kind) (ncellRead :
 /-! ### parallel reader = serial reader -/
 
 /-- **part_read_eq_serial**: `ref_part_bin_ugrid` on the writer's output — seeking to the generated offsets, reading each
-    section in chunks of ANY size ≥ 1 (up to what the 1 GiB allocator cap admits), on ANY number of ranks ≥ 1 (that an
+    section in chunks of ANY size ≥ 1 (up to what the 1 GiB allocator cap allows), on ANY number of ranks ≥ 1 (that an
     `int` holds) — holds
     the vertices of the file and, per kind, the cells of the file in file order, minus later cells over an already
     stored node set (`ref_cell_add_many_global`) -/
